@@ -62,6 +62,13 @@ class Closure:
         self.env = env
 
 
+class PyHook:
+    """a Python callable installed by a rule as an attribute of a Namespace (e.g. a recording `apply_transform`)"""
+
+    def __init__(self, fn):
+        self.fn = fn
+
+
 class _Return(Exception):
     def __init__(self, v):
         self.v = v
@@ -222,6 +229,8 @@ class Interp:
         # in-repo helpers treated as primitives (reasoned, listed in evidence through assumptions)
         self.stubs = {"trimesh.util:is_shape": _stub_is_shape}
         self.decider = None  # optional callback(frame, test_node) -> bool | None
+        self.trace = None  # when a dict: (function qualname, variable) -> list of every value bound to that name / stored into it
+        self._fresh = 0
 
     # ------------------------------------------------------------------ external functions
     def ext_call(self, dotted, args, kw, node):
@@ -241,6 +250,22 @@ class Interp:
             return _eye(args[0])
         if name == "zeros_like":
             return _zeros(arr(args[0]).shape)
+        if name in ("random", "rand", "random_sample", "uniform") and ".random" in dotted:
+            # an arbitrary sample: fresh symbols, so anything proven holds for every draw
+            shape = args[0] if name != "rand" else tuple(args)
+            if name == "uniform":
+                shape = kw.get("size", args[2] if len(args) > 2 else ())
+            self._fresh += 1
+            self.assume(f"{dotted}: modelled as arbitrary reals (fresh symbols rnd{self._fresh}_*)")
+            return symbols_array(f"rnd{self._fresh}_", tuple(int(x) for x in (shape if isinstance(shape, (tuple, list)) else (shape,))))
+        if name == "diff":
+            a = arr(args[0])
+            ax = int(kw.get("axis", -1)) % a.ndim
+            hi = [slice(None)] * a.ndim
+            lo = [slice(None)] * a.ndim
+            hi[ax] = slice(1, None)
+            lo[ax] = slice(None, -1)
+            return a[tuple(hi)] - a[tuple(lo)]
         if name == "cross":
             return _cross(*args)
         if name == "dot":
@@ -262,6 +287,8 @@ class Interp:
             return vmap(sp.sqrt, arr(args[0]))
         if name in ("abs", "absolute", "fabs"):
             return vmap(sp.Abs, arr(args[0]))
+        if name == "sign":
+            return vmap(sp.sign, arr(args[0]))
         if name in ("sin", "cos", "tan"):
             if self.trig is None:
                 return vmap(getattr(sp, name), arr(args[0]))
@@ -346,6 +373,22 @@ class Interp:
                     out[idx] = sp.Function(f"opaque_{name}_{k_}")(*sorted(free, key=str))
                 return out
             return f_
+        if name in ("any", "all", "isfinite", "isnan", "allclose", "isclose"):
+            vals = []
+            for a_ in args:
+                a_ = arr(a_)
+                vals += list(a_.flat) if isinstance(a_, np.ndarray) else [a_]
+            free = set()
+            for v_ in vals:
+                if isinstance(v_, sp.Basic):
+                    free |= v_.free_symbols
+            if not free and name in ("isfinite", "isnan") and len(vals) == 1:
+                fin = bool(sp.S(vals[0]).is_finite)
+                return fin if name == "isfinite" else not fin
+            if not free and name in ("any", "all") and all(isinstance(v_, (bool, sp.logic.boolalg.BooleanAtom)) for v_ in vals):
+                return (any if name == "any" else all)(bool(v_) for v_ in vals)
+            # a data-dependent predicate: left to the rule's decision table / decider
+            return sp.Function("opaque_" + name)(*sorted(free, key=str)) if free else sp.Function("opaque_" + name)(sp.Symbol("_"))
         if name == "is_shape":
             self.assume(f"shape test util.is_shape({', '.join(map(_short, args[1:]))}) holds for the inputs considered")
             return True
@@ -755,6 +798,8 @@ class Frame:
             return self.it.call(f, args, kw)
         if isinstance(f, Closure):
             return self.it.call(f.fi, args, kw, closure_env=f.env)
+        if isinstance(f, PyHook):
+            return f.fn(*args, **kw)
         if isinstance(f, ClassInfo):
             # dataclass-style construction
             fields = [st.target.id for st in f.node.body if isinstance(st, ast.AnnAssign) and isinstance(st.target, ast.Name)]
@@ -829,6 +874,8 @@ class Frame:
         if isinstance(target, ast.Name):
             self.env[target.id] = value
             key = (self.fi.qualname, target.id)
+            if self.it.trace is not None:
+                self.it.trace.setdefault(key, []).append(value.copy() if isinstance(value, np.ndarray) else value)
             if key in self.it.overrides:
                 self.it.captured[key] = value
                 self.env[target.id] = self.it.overrides[key]
@@ -847,6 +894,8 @@ class Frame:
                     base[idx] = v
                 except Exception as ex:
                     raise Unsupported(f"store `{ast.unparse(target)}`: {ex}")
+                if self.it.trace is not None and isinstance(target.value, ast.Name):
+                    self.it.trace.setdefault((self.fi.qualname, target.value.id), []).append(base.copy())
             elif isinstance(base, (dict, list)):
                 base[idx] = value
             else:
